@@ -35,7 +35,7 @@ ASSUMPTIONS = [
 ]
 BUDGET = {"quick": {"examples": 3200, "wall": 600, "min_evaluations": 150}, "thorough": {"examples": 40000, "wall": 2400, "min_evaluations": 3000}}
 MANDATORY = {
-    t: ["nontrivial", "x:node", "x:offnode", "grid:log", "grid:linear", "shifted-convolution-point", "x:near-one", "pto:3", "family:heavy", "family:asy", "family:intrinsic", "cc-total-with-massive-component"]
+    t: ["nontrivial", "x:node", "x:offnode", "grid:log", "grid:linear", "shifted-convolution-point", "x:near-one", "pto:3", "family:heavy", "family:asy", "family:intrinsic", "cc-total-with-massive-component", "deep-grid"]
     for t in ("quick", "thorough")
 }
 SHRINK = {"quick": False, "thorough": True}
@@ -54,6 +54,17 @@ def cases(draw, tier="quick"):
         name = f"{meta['kind']}_{h}"
         cfg["obs"]["observables"] = {name: cfg["obs"]["observables"][meta["name"]]}
         meta["heavyness"], meta["name"] = h, name
+    if meta["scheme"] == "ZM-VFNS" and draw(st.integers(0, 3)) == 0:
+        # grids as deep as the ones used in fits (xmin 1e-5 ... 3e-8) and x near their lower edge: what is lost or gained at the
+        # lower end of the z range, z -> x, is a relative 1/x effect in the column of the last node (massless kernels only: the
+        # massive library leaves its domain there, which is C16's and C08's subject)
+        grid = draw(cards.grids(nmax=10, umin=5.0, umax=7.5))
+        cards.apply_grid(cfg["obs"], grid)
+        kin = cfg["obs"]["observables"][meta["name"]][0]
+        kin["x"] = draw(cards.x_in_grid(grid, classes=["above_xmin", "above_xmin", "node", "interior", "near_node"]))[0]
+        meta["deep_grid"] = True
+        meta["grid_family"] = grid["family"]
+    configs.split_orders(draw, cfg["theory"], meta)
     return cfg
 
 
@@ -76,6 +87,8 @@ def check_case(case):
     out = run.run(th, ob)
     r = run.runner(th, ob)
     v.label("grid:log" if b.log else "grid:linear", f"pto:{meta['pto']}", f"scheme:{meta['scheme']}", f"process:{meta['process']}", f"kind:{meta['kind']}")
+    if meta.get("deep_grid"):
+        v.label("deep-grid")
     hvq = {"charm": 4, "bottom": 5, "top": 6}.get(meta["heavyness"])
     with warnings.catch_warnings(), np.errstate(all="ignore"):
         warnings.simplefilter("ignore")
@@ -112,7 +125,7 @@ def check_case(case):
                 if c != x:
                     v.label("shifted-convolution-point")
                 part = np.array([ker.partons.get(p, 0.0) for p in run.PIDS])
-                for o in range(th["PTO"] + 1):
+                for o in range(meta["pto"] + 1):
                     if not ker.has_order(o):
                         continue
                     rsl = guarded(ker.coeff[o])
@@ -124,7 +137,7 @@ def check_case(case):
                     if o >= 1 and (rsl.sing is not None or rsl.loc is not None) and np.any(ival != 0) and np.any(part != 0):
                         interesting = True
             got = run.tensors(out[name][i])
-            for o in range(th["PTO"] + 1):
+            for o in range(meta["pto"] + 1):
                 t = got[(o, 0, 0, 0)]
                 rf = ref.get(o, np.zeros_like(t))
                 sc = sca.get(o, np.zeros_like(t))
